@@ -1,6 +1,7 @@
 package vc
 
 import (
+	"fmt"
 	"go/types"
 	"sort"
 	"strings"
@@ -263,23 +264,19 @@ func (g *Gen) instrWrites(in ssa.Instruction, ws *WriteSet) (callees []*ssa.Func
 	return g.instrWritesIn(in, ws, nil)
 }
 
-// noteAlloc records that an object or array of (named struct) type t may be allocated.
+// noteAlloc records that an ARRAY with elements of (named struct) type T may be allocated: t is the slice or
+// array type. Single objects of T are not recorded: they carry the negated tag and never count as cells.
 func (g *Gen) noteAlloc(t types.Type, ws *WriteSet) {
-	for {
-		switch u := t.(type) {
-		case *types.Pointer:
-			t = u.Elem()
-			continue
-		case *types.Slice:
-			t = u.Elem()
-			continue
-		case *types.Array:
-			t = u.Elem()
-			continue
-		}
-		break
+	var et types.Type
+	switch u := t.Underlying().(type) {
+	case *types.Slice:
+		et = u.Elem()
+	case *types.Array:
+		et = u.Elem()
+	default:
+		return
 	}
-	if nt, ok := t.(*types.Named); ok && isStruct(nt) {
+	if nt, ok := et.(*types.Named); ok && isStruct(nt) {
 		ws.Allocs[g.TE.TypeName(nt)] = true
 	}
 }
@@ -625,4 +622,33 @@ func (g *Gen) unmarshalTargetHeaps(v ssa.Value) (hs []string, ok bool) {
 	}
 	sort.Strings(hs)
 	return hs, true
+}
+
+
+// DumpFootprints prints the inferred write and allocation sets of the functions whose key contains one of subs.
+func (g *Gen) DumpFootprints(subs []string) {
+	var fns []*ssa.Function
+	for fn := range g.WS {
+		fns = append(fns, fn)
+	}
+	sort.Slice(fns, func(i, j int) bool { return fns[i].String() < fns[j].String() })
+	for _, fn := range fns {
+		k := FuncKey(fn)
+		hit := false
+		for _, s := range subs {
+			if strings.Contains(k, s) {
+				hit = true
+			}
+		}
+		if !hit {
+			continue
+		}
+		ws := g.WS[fn]
+		var al []string
+		for a := range ws.Allocs {
+			al = append(al, a)
+		}
+		sort.Strings(al)
+		fmt.Printf("%s\n  top=%v %s\n  writes: %s\n  allocs: %s\n", k, ws.Top, ws.TopWhy, strings.Join(ws.Sorted(), " "), strings.Join(al, " "))
+	}
 }
